@@ -28,6 +28,10 @@
 (*                      without the delivery lock                            *)
 (*   D_ResetUnhandled   a connection reset (recv raises) ends the transport        *)
 (*                      thread without raising its stop flag                 *)
+(*   D_ConnectedBeforeRegistered  TcpClient.start() reports connected before   *)
+(*                      the socket is registered with the selector          *)
+(*   D_CloseSkipsUnregistered     close() does not close a socket that is not *)
+(*                      registered yet                                       *)
 (*   D_SenderKeepsLock  send_message() on a connection that has just ended    *)
 (*                      raises with the association lock held                *)
 (* Decides C08.                                                             *)
@@ -54,24 +58,54 @@ VARIABLES phase,         \* state reported to the application: "Setup" "Open" "C
           cpc, cmsg,     \* consumers
           apc,           \* application thread calling close(): "idle" "done"
           spc,           \* application thread calling send_message(): "idle" "acq" "chk" "done"
-          peerEof, rst, dprIn, dprSent, dpaIn, estab, refused, inbound, budget
+          peerEof, rst, dprIn, dprSent, dpaIn, estab, refused, inbound, budget,
+          registered,    \* the socket is registered with the selector
+          stpc           \* application thread inside Diameter.start(): "conn" "reg" "flag" "run" "worker" "done"
 vars == <<phase, running, ppc, active, stopA, trSet, connected, trStop, sockOpen, lsnOpen, tpc, wpc, alock, plock, ready, postQ, cpc, cmsg, apc, spc,
-          peerEof, rst, dprIn, dprSent, dpaIn, estab, refused, inbound, budget>>
+          peerEof, rst, dprIn, dprSent, dpaIn, estab, refused, inbound, budget, registered, stpc>>
 
 Free == 0
 PSM == 100  WK == 101
 Dev(d) == d \in Deviations
 
+\* start() has created the state machine thread (already ticking) and the transport object; it is about to connect
 Init == /\ phase = "Setup" /\ running = TRUE /\ ppc = "tick" /\ active = FALSE /\ stopA = FALSE /\ trSet = TRUE
-        /\ connected = TRUE /\ trStop = FALSE /\ sockOpen = TRUE /\ lsnOpen = (Role = "server")
-        /\ tpc = "check" /\ wpc = "top" /\ alock = Free /\ plock = Free /\ ready = FALSE /\ postQ = 0
+        /\ connected = FALSE /\ trStop = FALSE /\ sockOpen = TRUE /\ lsnOpen = (Role = "server")
+        /\ tpc = "none" /\ wpc = "none" /\ alock = Free /\ plock = Free /\ ready = FALSE /\ postQ = 0
         /\ cpc = [c \in Consumers |-> "idle"] /\ cmsg = [c \in Consumers |-> FALSE] /\ apc = "idle" /\ spc = "idle"
         /\ peerEof = FALSE /\ rst = FALSE /\ dprIn = FALSE /\ dprSent = FALSE /\ dpaIn = FALSE /\ estab = FALSE
         /\ refused \in (IF Role = "client" THEN BOOLEAN ELSE {FALSE}) /\ inbound = 0 /\ budget = Budget
+        /\ registered = FALSE /\ stpc = "conn"
+\* the state once start() has returned normally (where recorded executions begin)
+StartedInit == /\ phase = "Setup" /\ running = TRUE /\ ppc = "tick" /\ active = FALSE /\ stopA = FALSE /\ trSet = TRUE
+               /\ connected = TRUE /\ trStop = FALSE /\ sockOpen = TRUE /\ lsnOpen = (Role = "server")
+               /\ tpc = "check" /\ wpc = "top" /\ alock = Free /\ plock = Free /\ ready = FALSE /\ postQ = 0
+               /\ cpc = [c \in Consumers |-> "idle"] /\ cmsg = [c \in Consumers |-> FALSE] /\ apc = "idle" /\ spc = "idle"
+               /\ peerEof = FALSE /\ rst = FALSE /\ dprIn = FALSE /\ dprSent = FALSE /\ dpaIn = FALSE /\ estab = FALSE
+               /\ refused \in (IF Role = "client" THEN BOOLEAN ELSE {FALSE}) /\ inbound = 0 /\ budget = Budget
+               /\ registered = TRUE /\ stpc = "done"
+
+(* ------------------------------------------------------------ application: the rest of start() *)
+\* TcpClient.start(): connect, register with the selector, report connected (repaired order); then transport.run() starts the
+\* transport thread (it raises when the connection has already been closed) and the receive worker is started
+Starter ==
+    /\ \/ /\ stpc = "conn" /\ stpc' = (IF Dev("D_ConnectedBeforeRegistered") THEN "flag" ELSE "reg")
+          /\ UNCHANGED <<registered, connected, tpc, wpc>>
+       \/ /\ stpc = "reg" /\ registered' = sockOpen                       \* (registering a closed socket fails and is only logged)
+          /\ stpc' = (IF Dev("D_ConnectedBeforeRegistered") THEN "run" ELSE IF sockOpen THEN "flag" ELSE "run")
+          /\ UNCHANGED <<connected, tpc, wpc>>
+       \/ /\ stpc = "flag" /\ connected' = TRUE /\ stpc' = (IF Dev("D_ConnectedBeforeRegistered") THEN "reg" ELSE "run")
+          /\ UNCHANGED <<registered, tpc, wpc>>
+       \/ /\ stpc = "run"
+          /\ IF trSet /\ connected THEN tpc' = "check" /\ stpc' = "worker" ELSE stpc' = "done" /\ UNCHANGED tpc     \* (else start() raises)
+          /\ UNCHANGED <<registered, connected, wpc>>
+       \/ /\ stpc = "worker" /\ wpc' = "top" /\ stpc' = "done" /\ UNCHANGED <<registered, connected, tpc>>
+    /\ UNCHANGED <<phase, running, ppc, active, stopA, trSet, trStop, sockOpen, lsnOpen, alock, plock, ready, postQ, cpc, cmsg, apc, spc,
+                   peerEof, rst, dprIn, dprSent, dpaIn, estab, refused, inbound, budget>>
 
 (* ------------------------------------------------------------ environment *)
 \* the capabilities exchange completes (CEA / CER arrives); never on a refused connection
-Establish == /\ ~estab /\ ~refused /\ ~peerEof /\ phase = "Setup" /\ estab' = TRUE
+Establish == /\ ~estab /\ ~refused /\ ~peerEof /\ phase = "Setup" /\ connected /\ registered /\ estab' = TRUE
              /\ UNCHANGED <<phase, running, ppc, active, stopA, trSet, connected, trStop, sockOpen, lsnOpen, tpc, wpc, alock, plock, ready, postQ, cpc, cmsg, apc, spc,
                             peerEof, rst, dprIn, dprSent, dpaIn, refused, inbound, budget>>
 \* the peer goes away: orderly (FIN, recv returns nothing) or abruptly (RST, recv raises)
@@ -102,14 +136,19 @@ PUnch == UNCHANGED <<tpc, wpc, cpc, cmsg, apc, spc, peerEof, rst, estab, refused
 StartTeardown == ppc' = "t_run"
 PTickSetup ==
     /\ ppc = "tick" /\ phase = "Setup"
-    /\ \/ /\ refused /\ Role = "client"                                   \* Conn-Nack
+    /\ \/ /\ refused /\ Role = "client" /\ trSet /\ connected               \* Conn-Nack (test_connection needs a connection object)
           /\ StartTeardown /\ UNCHANGED active
-       \/ /\ trStop /\ ~refused                                            \* Peer-Disc during setup
+       \/ /\ trStop /\ ~refused /\ trSet /\ connected                        \* Peer-Disc during setup
           /\ IF Role = "server" THEN ~Dev("D_ServerEofIgnored") ELSE ~Dev("D_SetupEofIgnored")
           /\ StartTeardown /\ UNCHANGED active
        \/ /\ estab /\ ~trStop /\ active' = TRUE /\ ppc' = "opening"       \* set_open_state(early_stage): the flag first,
     /\ UNCHANGED <<phase, running, stopA, trSet, connected, trStop, sockOpen, lsnOpen, alock, plock, ready, postQ, dprIn, dprSent, dpaIn, inbound>>
     /\ PUnch
+\* the CER goes out through selector.modify(): on a socket that is not registered yet it raises, the locks stay held
+PDiesUnregistered == /\ ppc = "tick" /\ phase = "Setup" /\ Role = "client" /\ ~refused /\ trSet /\ connected /\ ~registered /\ alock = Free
+                     /\ ppc' = "dead" /\ alock' = PSM
+                     /\ UNCHANGED <<phase, running, active, stopA, trSet, connected, trStop, sockOpen, lsnOpen, plock, ready, postQ, dprIn, dprSent, dpaIn, inbound>>
+                     /\ PUnch
 POpening == /\ ppc = "opening" /\ phase' = "Open" /\ ppc' = "tick"          \* ... the state object after the tick
             /\ UNCHANGED <<running, active, stopA, trSet, connected, trStop, sockOpen, lsnOpen, alock, plock, ready, postQ, dprIn, dprSent, dpaIn, inbound>>
             /\ PUnch
@@ -158,7 +197,8 @@ PTeardown ==
           /\ UNCHANGED <<phase, running, active, trSet, connected, trStop, sockOpen, lsnOpen>>
        \/ /\ ppc = "t_conn" /\ connected' = FALSE /\ ppc' = "t_sock"
           /\ UNCHANGED <<phase, running, active, stopA, trSet, trStop, sockOpen, lsnOpen, ready, plock>>
-       \/ /\ ppc = "t_sock" /\ sockOpen' = FALSE /\ ppc' = "t_trstop"
+       \* (before the repair an unregistered socket was not closed: unregister raised first)
+       \/ /\ ppc = "t_sock" /\ sockOpen' = (IF Dev("D_CloseSkipsUnregistered") /\ ~registered THEN sockOpen ELSE FALSE) /\ ppc' = "t_trstop"
           /\ UNCHANGED <<phase, running, active, stopA, trSet, connected, trStop, lsnOpen, ready, plock>>
        \/ /\ ppc = "t_trstop" /\ trStop' = TRUE /\ ppc' = (IF lsnOpen THEN "t_lsn" ELSE "t_none")
           /\ UNCHANGED <<phase, running, active, stopA, trSet, connected, sockOpen, lsnOpen, ready, plock>>
@@ -173,7 +213,7 @@ PTeardown ==
           /\ UNCHANGED <<running, active, stopA, trSet, connected, trStop, sockOpen, lsnOpen, ready, plock>>
     /\ UNCHANGED <<alock, postQ, dprIn, dprSent, dpaIn, inbound>>
     /\ PUnch
-Psm == PTickSetup \/ POpening \/ PTickOpen \/ PDeliver \/ PTickClosing \/ PForce \/ PTeardown
+Psm == PTickSetup \/ PDiesUnregistered \/ POpening \/ PTickOpen \/ PDeliver \/ PTickClosing \/ PForce \/ PTeardown
 
 (* ------------------------------------------------------------ transport thread *)
 TUnch == UNCHANGED <<phase, running, ppc, active, stopA, trSet, connected, sockOpen, lsnOpen, wpc, alock, plock, ready, postQ, cpc, cmsg, apc, spc,
@@ -246,14 +286,17 @@ SChk == /\ spc = "chk" /\ spc' = "done"
         /\ SUnch
 Snd == SCall \/ SAcq \/ SChk
 
-Threads == Psm \/ Tr \/ Wk \/ Cons \/ Snd
-Next == Env \/ AppClose \/ Threads
+Old == Psm \/ Tr \/ Wk \/ Cons \/ Snd
+Threads == (Old /\ UNCHANGED <<registered, stpc>>) \/ Starter
+Next == ((Env \/ AppClose) /\ UNCHANGED <<registered, stpc>>) \/ Threads
 Spec == Init /\ [][Next]_vars
 \* every thread keeps running; the peer answers a DPR or goes away
-FairSpec == Spec /\ WF_vars(Psm) /\ WF_vars(Tr) /\ WF_vars(Wk) /\ WF_vars(Cons) /\ WF_vars(Snd) /\ WF_vars(PeerDpa \/ PeerEof)
+Keep == UNCHANGED <<registered, stpc>>
+FairSpec == Spec /\ WF_vars(Psm /\ Keep) /\ WF_vars(Tr /\ Keep) /\ WF_vars(Wk /\ Keep) /\ WF_vars(Cons /\ Keep) /\ WF_vars(Snd /\ Keep)
+                 /\ WF_vars(Starter) /\ WF_vars((PeerDpa \/ PeerEof) /\ Keep)
 
 (* ------------------------------------------------------------ C08 *)
-Released == /\ phase = "Closed" /\ ppc = "done" /\ tpc = "done" /\ wpc = "done" /\ ~sockOpen /\ ~lsnOpen /\ ~trSet
+Released == /\ phase = "Closed" /\ ppc = "done" /\ tpc \in {"done", "none"} /\ wpc \in {"done", "none"} /\ stpc = "done" /\ ~sockOpen /\ ~lsnOpen /\ ~trSet
             /\ \A c \in Consumers : cpc[c] \in {"idle", "ret"}
             /\ alock = Free /\ plock = Free /\ spc \in {"idle", "done"}
 \* the connection is ending: a release event has been taken by the state machine
@@ -264,7 +307,7 @@ TerminalOk == (Ending /\ ~ENABLED Threads) => Released
 \* Closed is reported only once the transport has been released (restartable: start() accepts Closed only)
 ClosedIsReleased == phase = "Closed" => (~sockOpen /\ ~lsnOpen /\ ~trSet /\ ~running)
 \* nobody finishes while holding a lock
-NoLockLeak == /\ (wpc = "done" => alock # WK) /\ (ppc = "done" => plock # PSM)
+NoLockLeak == /\ (wpc = "done" => alock # WK) /\ (ppc \in {"done", "dead"} => (plock # PSM /\ alock # PSM))
               /\ \A c \in Consumers : cpc[c] \in {"idle", "ret"} => (alock # c /\ plock # c)
               /\ (spc = "done" => alock # 102)
 \* a release event leads to the released state
